@@ -56,6 +56,8 @@ func checkFrontEndInvokeRecord(c *report.Ctx) {
 
 func runC04(c *report.Ctx) {
 	checkFrontEndInvokeRecord(c)
+	c.Clause("0 the barrier primitive (shared with C11)")
+	checkGatePrimitive(c)
 	c.Clause("1 doInvoke order")
 	outer := fn(c, "L/rapid", "doInvoke$1")
 	if outer == nil {
